@@ -43,9 +43,11 @@ LAW_LEAVES = [
     pytd.Literal(1),
     pytd.Literal(True),
     T,
+    pytd.LateType("a.X"),
+    pytd.LateType("a.X", recursive=True),
 ]
 LAW_NAMES = ["N:int", "C:int", "C*:int", "N:str", "Any", "nothing", "Literal[1]",
-             "Literal[True]", "T"]
+             "Literal[True]", "T", "Late:a.X", "LateRec:a.X"]
 NL = param("C12_NLEAVES", quick=4, thorough=5)
 COMP = param("C12_COMP", quick=2, thorough=5)   # composite kinds (union, list, tuple, callable, tuple[...])
 DEPTH = param("C12_DEPTH", quick=2, thorough=2)
@@ -66,6 +68,8 @@ def law_ok(t):
 
 
 def law_key(t):
+  if DEPTH == 1:
+    return t[0] + 16 * t[2]
   return t[0] + 16 * (t[1] + 3 * (t[2] + 16 * (t[2 * NN] + 16 * (t[2 * NN + 1] + 3 * t[2 * NN + 2]))))
 
 
@@ -179,13 +183,13 @@ RT_SEL = Tuple[(int,) * 8]
 
 
 def rt_ok(s):
-  return all([all_inrange(s[:2], 0, NRT), s[2] == 0, s[3] == 0, inrange(s[4], 0, 4),
+  return all([all_inrange(s[:2], 0, NRT), inrange(s[2], 0, 3), s[3] == 0, inrange(s[4], 0, 4),
               any([s[4] >= 2, s[6] == 0]), inrange(s[5], 0, 3),
               inrange(s[6], 0, 3), inrange(s[7], 0, 2)])
 
 
 def rt_key(s):
-  return s[0] + 16 * (s[1] + 16 * (s[4] + 4 * s[5]))
+  return s[0] + 16 * (s[1] + 16 * (s[4] + 4 * (s[5] + 3 * s[2])))
 
 
 def rt_source(s):
@@ -197,9 +201,15 @@ def rt_source(s):
   cls = conc(s[5], 3)
   nsig = conc(s[6], 3)
   order = conc(s[7], 2)
+  ext = conc(s[2], 3)   # 0: no external module, 1: plain imports, 2: one aliased
   lines = ["from typing import Any, Callable, Literal, Optional, TypeVar, Union",
            "T = TypeVar('T')"]
   decls = []
+  if ext:
+    lines += ["import mmm", "import zzz.sub" + (" as aaa" if ext == 2 else "")]
+    mod = "aaa" if ext == 2 else "zzz.sub"
+    decls.append("e: Union[%s.X, mmm.Y, %s]" % (mod, t0))
+    decls.append("def h(x: %s.X, y: Union[%s.X, mmm.Y]) -> mmm.Y: ..." % (mod, mod))
   decls.append("x: %s" % t0)
   if shape >= 1:
     decls.append("def f(a: %s, b: %s = ...) -> %s: ..." % (t1, t2, t3))
@@ -227,6 +237,15 @@ def exportable_ast(src):
   return serialize_ast.SourceToExportableAst("m", src, _loader)
 
 
+def recorded_deps_match(back):
+  """The dependency lists stored next to the AST are the ones the stored
+  declarations actually have."""
+  deps = visitors.CollectDependencies()
+  back.ast.Visit(deps)
+  return (sorted(deps.dependencies.items()) == list(back.dependencies) and
+          sorted(deps.late_dependencies.items()) == list(back.late_dependencies))
+
+
 def h_roundtrip(s: RT_SEL) -> bool:
   """
   pre: rt_ok(s)
@@ -242,9 +261,16 @@ def h_roundtrip(s: RT_SEL) -> bool:
   again = pickle_utils.Encode(back)
   # SerializeAst clears the class pointers of `ast` in place; equality of
   # ClassType nodes is by name, so the comparison below is unaffected.
-  canonical = ast.Visit(visitors.CanonicalOrderingVisitor())
+  # (a module imported under an alias is stored under its real name)
+  canonical = ast.Visit(serialize_ast.UndoModuleAliasesVisitor()).Visit(
+      visitors.CanonicalOrderingVisitor())
+  printed = pytd_utils.Print(back.ast)
   ok = [pytd_utils.ASTeq(back.ast, canonical),
-        pytd_utils.Print(back.ast) == pytd_utils.Print(canonical),
+        printed == pytd_utils.Print(canonical),
+        # the decoded AST is itself canonically ordered
+        pytd_utils.Print(back.ast.Visit(visitors.CanonicalOrderingVisitor())) == printed,
+        # recorded dependencies are those of the stored declarations
+        recorded_deps_match(back),
         back.src_path == "m.pyi", back.metadata == ["k"]]
   ok.append(again == data)
   # and through the normal path (SerializeAst clears caches, re-sorts)
